@@ -45,6 +45,10 @@ def addrBlacklisted (bl : List String) (recv : String) : Bool := bl.any (fun b =
     exact strings).  Judging by `minted` as well keeps the predicate independent of how the keeper maintains its list. -/
 def isPegged (peggy minted : List String) (symbol : String) : Bool := peggy.contains symbol || minted.contains symbol
 
+/-- the pause flag the keeper answers with is the flag the store holds (no copy outside the multistore, which a
+    discarded transaction would not roll back) -/
+def pauseViewIsStore (view stored : Bool) : Bool := view == stored
+
 /-- the export gates: while paused, or with a blacklisted receiver, or for the wrong kind of token (native tokens are
     only locked, pegged tokens only burned), the message does not succeed; and a burn of a token the bridge minted is
     never refused as "native" (`res = err.native`) -/
